@@ -253,9 +253,41 @@ func (dec *Decoder) DiscardLine() {
 	if dec.crlf {
 		return
 	}
-	var text string
-	dec.Text(&text)
-	dec.CRLF()
+	for {
+		var text string
+		dec.Text(&text)
+		if !dec.CRLF() {
+			return
+		}
+
+		// A client sends the data of a non-synchronizing literal regardless
+		// of our reply: the line continues after the literal data, skip it
+		size, ok := trailingNonSyncLiteral(text)
+		if dec.side != ConnSideServer || !ok {
+			return
+		}
+		if _, err := io.CopyN(io.Discard, dec.r, size); err != nil {
+			dec.returnErr(err)
+			return
+		}
+	}
+}
+
+// trailingNonSyncLiteral checks whether a line ends with a non-synchronizing
+// literal header ("{<size>+}").
+func trailingNonSyncLiteral(line string) (size int64, ok bool) {
+	if !strings.HasSuffix(line, "+}") {
+		return 0, false
+	}
+	i := strings.LastIndexByte(line, '{')
+	if i < 0 {
+		return 0, false
+	}
+	size, err := strconv.ParseInt(line[i+1:len(line)-2], 10, 64)
+	if err != nil || size < 0 {
+		return 0, false
+	}
+	return size, true
 }
 
 func (dec *Decoder) DiscardValue() bool {
